@@ -264,7 +264,13 @@ class FormulaManager(object):
             raise PysmtValueError("The exponent of POW must be a constant.", exponent)
 
         if base.is_constant():
-            val = cast(Union[int, fractions.Fraction], base.constant_value()) ** cast(Union[int, fractions.Fraction], exponent.constant_value())
+            base_val = cast(Union[int, fractions.Fraction], base.constant_value())
+            exp_val = cast(Union[int, fractions.Fraction], exponent.constant_value())
+            if is_pysmt_integer(base_val) and is_pysmt_integer(exp_val) and exp_val < 0:
+                # int ** negative int is a float in Python: compute the
+                # exact rational instead
+                base_val = Fraction(base_val)
+            val = base_val ** exp_val
             return self.Real(val)
         return self.create_node(node_type=op.POW, args=(base, exponent))
 
